@@ -86,6 +86,24 @@ theorem runFn_ret {M : Meths} {env env' : Env} {b : PBlock} {v : PV} (h : execBl
 theorem runFn_err {M : Meths} {env : Env} {b : PBlock} {e : PErr} (h : execBlock M env b = .error e) :
     runFn M env b = .error e := by simp [runFn, h]
 
+/-- the n-th top-level statement of a block -/
+def nth : PBlock → Nat → PStmt
+  | .nil, _ => .pass
+  | .cons s _, 0 => s
+  | .cons _ r, n + 1 => nth r n
+
+/-- the block from its n-th top-level statement on -/
+def drop : PBlock → Nat → PBlock
+  | b, 0 => b
+  | .nil, _ + 1 => .nil
+  | .cons _ r, n + 1 => drop r n
+
+theorem step_next {M : Meths} {env env' : Env} {b : PBlock} {n : Nat}
+    (hb : drop b n = .cons (nth b n) (drop b (n + 1)))
+    (h : execStmt M env (nth b n) = .ok (.next env')) :
+    execBlock M env (drop b n) = execBlock M env' (drop b (n + 1)) := by
+  rw [hb]; exact cons_next h
+
 end TxH
 open TxH
 
@@ -100,11 +118,14 @@ def txStPV (t : TxSt) : PV := .sc (.enum "TxState" (txStName t))
 /-- an object-valued attribute that is `None` or an (opaque) object -/
 def objPV (name : String) (present : Bool) : PV := if present then .meth name else pnone
 
+/-- one outcome of `SendRequest.complete(success)`: the two scalars `id, success` -/
+def donePair (id : Nat) (ok : Bool) : List Sc := [.py (.int id), .py (.bool ok)]
+
 /-- the outcomes `SendRequest.complete(success)` recorded so far, oldest first, each as the two scalars `id, success`
     (the model's `.done id ok` events; the log of the model is newest first) -/
 def doneHist : List Ev → List Sc
   | [] => []
-  | .done id ok :: rest => doneHist rest ++ [.py (.int id), .py (.bool ok)]
+  | .done id ok :: rest => doneHist rest ++ donePair id ok
   | _ :: rest => doneHist rest
 
 /-- the attributes the transmit-side helpers read / write.  The two `Timer` sub-objects appear through their attributes
@@ -148,6 +169,21 @@ theorem has_txAttrs {env : Env} {s : State} (h : Has env (txAttrs s)) :
     env "#done" = some (.list (doneHist s.log)) := by
   simpa [Has, txAttrs] using h
 
+/-- the members of `TxState`, by the dotted path the methods use -/
+def txConsts : List (String × PV) :=
+  [("self.TxState.IDLE", txStPV .idle), ("self.TxState.WAIT_FC", txStPV .waitFc), ("self.TxState.TRANSMIT_CF", txStPV .transmitCf),
+   ("self.TxState.TRANSMIT_SF_STANDBY", txStPV .sfStandby), ("self.TxState.TRANSMIT_FF_STANDBY", txStPV .ffStandby)]
+
+/-- ... are the ones dumped from the source -/
+theorem txConsts_dumped : ∀ kv ∈ txConsts, kv ∈ Src.consts := by decide
+
+theorem has_txConsts {env : Env} (h : Has env txConsts) :
+    env "self.TxState.IDLE" = some (txStPV .idle) ∧ env "self.TxState.WAIT_FC" = some (txStPV .waitFc) ∧
+    env "self.TxState.TRANSMIT_CF" = some (txStPV .transmitCf) ∧
+    env "self.TxState.TRANSMIT_SF_STANDBY" = some (txStPV .sfStandby) ∧
+    env "self.TxState.TRANSMIT_FF_STANDBY" = some (txStPV .ffStandby) := by
+  simpa [Has, txConsts] using h
+
 /-- The primitives the transmit-side helpers call, in state `s`:
     * `self.active_send_request.complete(success)` appends `(id, success)` of the ACTIVE request to the history `#done`
       (calling it on `None` would be an `AttributeError`);
@@ -169,7 +205,7 @@ def txMeths (s : State) : Meths where
     match name, args with
     | "self.active_send_request.complete", [.sc (.py (.bool ok))] =>
       (match s.active, env "#done" with
-       | some r, some (.list h) => .ok (env.set "#done" (.list (h ++ [.py (.int r.id), .py (.bool ok)])))
+       | some r, some (.list h) => .ok (env.set "#done" (.list (h ++ donePair r.id ok)))
        | _, _ => .error (.exc .AttributeError))
     | "self.timer_rx_fc.stop", [] => .ok (env.set "self.timer_rx_fc.start_time" pnone)
     | "self.timer_tx_stmin.stop", [] => .ok (env.set "self.timer_tx_stmin.start_time" pnone)
@@ -183,9 +219,9 @@ def txMeths (s : State) : Meths where
 theorem txMeths_complete (s : State) (r : Req) (ha : s.active = some r) (ok : Bool) (env : Env) (h : List Sc)
     (hd : env "#done" = some (.list h)) :
     (txMeths s).proc "self.active_send_request.complete" [pbool ok] env =
-      .ok (env.set "#done" (.list (h ++ [.py (.int r.id), .py (.bool ok)]))) := by
+      .ok (env.set "#done" (.list (h ++ donePair r.id ok))) := by
   show (match s.active, env "#done" with
-       | some r, some (PV.list h) => Except.ok (env.set "#done" (PV.list (h ++ [Sc.py (.int r.id), Sc.py (.bool ok)])))
+       | some r, some (PV.list h) => Except.ok (env.set "#done" (PV.list (h ++ donePair r.id ok)))
        | _, _ => (Except.error (PErr.exc .AttributeError) : Except PErr Env)) = _
   rw [ha, hd]
 
@@ -203,5 +239,154 @@ theorem txMeths_timer_stop_is_source (s : State) (env : Env) (M : Meths) :
       (envM M (timerEnv s.timerStmin) Src.Timer_stop).map (· "self.start_time") := by
   rw [timer_stop_start_time, timer_stop_start_time]
   exact ⟨rfl, rfl⟩
+
+/-! ## A. `_stop_sending(success)` = `State.stopSending` -/
+
+/-- the environment `_stop_sending(success)` ends with -/
+def stopEnv (s : State) (ok : Bool) (env : Env) : Env :=
+  let env1 := match s.active with
+    | some r =>
+      (env.set "#done" (.list (doneHist s.log ++ donePair r.id ok))).set "self.active_send_request" pnone
+    | none => env
+  (((((((((env1.set "self.tx_state" (txStPV .idle)).set "self.tx_frame_length" (pint 0)).set
+    "self.timer_rx_fc.start_time" pnone).set "self.timer_tx_stmin.start_time" pnone).set "self.remote_blocksize" pnone).set
+    "self.tx_block_counter" (pint 0)).set "self.tx_seqnum" (pint 0)).set "self.wft_counter" (pint 0)).set
+    "self.tx_standby_msg" pnone)
+
+namespace TxH
+abbrev SS (n : Nat) : PStmt := nth Src.TransportLayerLogic_p_stop_sending n
+abbrev SR (n : Nat) : PBlock := drop Src.TransportLayerLogic_p_stop_sending n
+
+/-- statement 0: `if self.active_send_request is not None: self.active_send_request.complete(success); self.active_send_request = None` -/
+theorem stop_stmt0 (s : State) (ok : Bool) (env : Env) (hE : Has env (txAttrs s)) (hs : env "success" = some (pbool ok)) :
+    execStmt (txMeths s) env (SS 0) = .ok (.next (match s.active with
+      | some r =>
+        (env.set "#done" (.list (doneHist s.log ++ donePair r.id ok))).set "self.active_send_request" pnone
+      | none => env)) := by
+  obtain ⟨-, -, -, -, -, -, -, hA, -, -, -, -, hD⟩ := has_txAttrs hE
+  cases ha : s.active with
+  | none =>
+    simp [SS, nth, Src.TransportLayerLogic_p_stop_sending, execStmt, execBlock, eval, hA, ha, objPV]
+  | some r =>
+    have hc := txMeths_complete s r ha ok env _ hD
+    simp [SS, nth, Src.TransportLayerLogic_p_stop_sending, execStmt, execBlock, eval, evalArgs, hA, ha, objPV, hs,
+      evalBuiltin_none "self.active_send_request.complete" _ (by decide), hc]
+end TxH
+
+/-- **`_stop_sending`, run**: in every environment that shows the transmit side of `s`, the call returns `None` and leaves `stopEnv` -/
+theorem p_stop_sending_run (s : State) (ok : Bool) (env : Env) (hE : Has env (txAttrs s)) (hC : Has env txConsts)
+    (hs : env "success" = some (pbool ok)) :
+    runFn (txMeths s) env Src.TransportLayerLogic_p_stop_sending = .ok (pnone, stopEnv s ok env) := by
+  obtain ⟨hI, -⟩ := has_txConsts hC
+  apply runFn_next
+  show execBlock _ env (SR 0) = _
+  rw [step_next rfl (stop_stmt0 s ok env hE hs)]
+  rw [step_next rfl (assign_var _ _ "self.tx_state" "self.TxState.IDLE" (txStPV .idle)
+    (by cases s.active <;> simp [set_get, hI]))]
+  rw [step_next rfl (assign_int _ _ "self.tx_frame_length" 0)]
+  rw [step_next rfl (proc0 _ _ _ "self.timer_rx_fc.stop" (by decide) (txMeths_fc_stop s _))]
+  rw [step_next rfl (proc0 _ _ _ "self.timer_tx_stmin.stop" (by decide) (txMeths_stmin_stop s _))]
+  rw [step_next rfl (assign_none _ _ "self.remote_blocksize")]
+  rw [step_next rfl (assign_int _ _ "self.tx_block_counter" 0)]
+  rw [step_next rfl (assign_int _ _ "self.tx_seqnum" 0)]
+  rw [step_next rfl (assign_int _ _ "self.wft_counter" 0)]
+  rw [step_next rfl (assign_none _ _ "self.tx_standby_msg")]
+  rfl
+
+/-- ... and `stopEnv` shows the transmit side of the model's `s.stopSending ok` -/
+theorem stopEnv_has (s : State) (ok : Bool) (env : Env) (hE : Has env (txAttrs s)) :
+    Has (stopEnv s ok env) (txAttrs (s.stopSending ok)) := by
+  obtain ⟨h1, h2, h3, h4, h5, h6, h7, h8, h9, h10, h11, h12, h13⟩ := has_txAttrs hE
+  rw [show s.active.isSome = (match s.active with | some _ => true | none => false) by cases s.active <;> rfl] at h8
+  cases ha : s.active <;> rw [ha] at h8 <;>
+  simp [Has, txAttrs, stopEnv, State.stopSending, State.emit, ha, set_get, Timer.stop, optPV, objPV, doneHist, h10, h12, h13] <;>
+  simpa [objPV] using h8
+
+/-- nothing else is written -/
+theorem stopEnv_frame (s : State) (ok : Bool) (env : Env) (k : String) (hk : k ∉ txKeys) : stopEnv s ok env k = env k := by
+  simp only [txKeys, List.mem_cons, List.not_mem_nil, or_false, not_or] at hk
+  cases ha : s.active <;> simp [stopEnv, ha, set_get, hk]
+
+/-- **`_stop_sending(success)` = `State.stopSending`**, for ALL states and EVERY environment that shows the transmit side of `s`
+    (`Has env (txAttrs s)`), the `TxState` constants and the argument: the call returns `None`; afterwards the object shows the
+    transmit side of the model's `s.stopSending ok` (in particular the history `#done` gained `(id, ok)` of the active request exactly
+    when there was one: the model's `emit (.done r.id ok)`), and no other name was written. -/
+theorem p_stop_sending_agrees (s : State) (ok : Bool) (env : Env) (hE : Has env (txAttrs s)) (hC : Has env txConsts)
+    (hs : env "success" = some (pbool ok)) :
+    ∃ env', runFn (txMeths s) env Src.TransportLayerLogic_p_stop_sending = .ok (pnone, env') ∧
+      Has env' (txAttrs (s.stopSending ok)) ∧ ∀ k, k ∉ txKeys → env' k = env k :=
+  ⟨stopEnv s ok env, p_stop_sending_run s ok env hE hC hs, stopEnv_has s ok env hE, stopEnv_frame s ok env⟩
+
+/-- an environment with exactly the transmit side of `s`, the constants and the argument (non-vacuity of the hypotheses) -/
+def txEnvOf (s : State) (extra : List (String × PV)) : Env := envOf (extra ++ txAttrs s ++ txConsts)
+
+theorem txEnvOf_has (s : State) (ok : Bool) :
+    Has (txEnvOf s [("success", pbool ok)]) (txAttrs s) ∧ Has (txEnvOf s [("success", pbool ok)]) txConsts ∧
+    txEnvOf s [("success", pbool ok)] "success" = some (pbool ok) := by
+  refine ⟨?_, ?_, rfl⟩
+  · intro kv h
+    simp only [txAttrs, List.mem_cons, List.not_mem_nil, or_false] at h
+    rcases h with rfl | rfl | rfl | rfl | rfl | rfl | rfl | rfl | rfl | rfl | rfl | rfl | rfl <;> rfl
+  · intro kv h
+    simp only [txConsts, List.mem_cons, List.not_mem_nil, or_false] at h
+    rcases h with rfl | rfl | rfl | rfl | rfl <;> rfl
+
+/-! ## B. `_start_rx_fc_timer` = `State.startRxFcTimer`
+
+  The source is `self.timer_rx_fc = Timer(timeout=float(self.params.rx_flowcontrol_timeout) / 1000); self.timer_rx_fc.start()`.
+  The interpreter evaluates `float(ms) / 1000` to the exact rational `ms/1000` (seconds).  `Timer.__init__` / `Timer.set_timeout`
+  then store `int(timeout * 1e9)` nanoseconds: a FLOAT computation, outside the subset.  Its result is, by construction of the
+  harness, the value handed to the model as `cfg.tFc` (DESIGN 3.1: "timeout parameters enter the model as integer nanoseconds read
+  from the implementation after construction").  Here `Timer(timeout=...)` is therefore an opaque fresh object (`Meths.fn` cannot
+  write attributes) and `self.timer_rx_fc.start()` on that fresh object is the primitive that shows its two attributes:
+  `timeout := cfg.tFc` (what the constructor stored) and `start_time := now` (`Timer.start`, `timer_start_none_agrees`). -/
+
+theorem truediv_1000 (x : Int) : evalBinop .truediv (pint x) (pint 1000) = .ok (.sc (.py (.float x 1000))) := rfl
+
+theorem txMeths_float (s : State) (i : Int) (env : Env) : (txMeths s).fn "float" [pint i] env = .ok (pint i) := rfl
+theorem txMeths_Timer (s : State) (n : Int) (d : Nat) (env : Env) :
+    (txMeths s).fn "Timer#timeout" [.sc (.py (.float n d))] env = .ok (.meth "Timer") := rfl
+theorem txMeths_fc_start (s : State) (env : Env) (h : env "self.timer_rx_fc" = some (.meth "Timer")) :
+    (txMeths s).proc "self.timer_rx_fc.start" [] env =
+      .ok ((env.set "self.timer_rx_fc.timeout" (pint s.cfg.tFc)).set "self.timer_rx_fc.start_time" (pint s.now)) := by
+  show (match env "self.timer_rx_fc" with
+       | some (PV.meth "Timer") =>
+         Except.ok ((env.set "self.timer_rx_fc.timeout" (pint s.cfg.tFc)).set "self.timer_rx_fc.start_time" (pint s.now))
+       | _ => (Except.error (PErr.exc .AttributeError) : Except PErr Env)) = _
+  rw [h]
+
+/-- the environment `_start_rx_fc_timer()` ends with -/
+def fcStartEnv (s : State) (env : Env) : Env :=
+  ((env.set "self.timer_rx_fc" (.meth "Timer")).set "self.timer_rx_fc.timeout" (pint s.cfg.tFc)).set
+    "self.timer_rx_fc.start_time" (pint s.now)
+
+theorem p_start_rx_fc_timer_run (s : State) (ms : Int) (env : Env)
+    (hp : env "self.params.rx_flowcontrol_timeout" = some (pint ms)) :
+    runFn (txMeths s) env Src.TransportLayerLogic_p_start_rx_fc_timer = .ok (pnone, fcStartEnv s env) := by
+  have h0 : execStmt (txMeths s) env (nth Src.TransportLayerLogic_p_start_rx_fc_timer 0) =
+      .ok (.next (env.set "self.timer_rx_fc" (.meth "Timer"))) := by
+    simp [nth, Src.TransportLayerLogic_p_start_rx_fc_timer, execStmt, eval, evalArgs, hp,
+      evalBuiltin_none "float" _ (by decide), evalBuiltin_none "Timer#timeout" _ (by decide), txMeths_float, truediv_1000,
+      txMeths_Timer]
+  apply runFn_next
+  show execBlock _ env (drop Src.TransportLayerLogic_p_start_rx_fc_timer 0) = _
+  rw [step_next rfl h0]
+  rw [step_next rfl (proc0 _ _ _ "self.timer_rx_fc.start" (by decide) (txMeths_fc_start s _ (by simp [set_get])))]
+  rfl
+
+def fcTimerKeys : List String := ["self.timer_rx_fc", "self.timer_rx_fc.timeout", "self.timer_rx_fc.start_time"]
+
+/-- **`_start_rx_fc_timer()` = `State.startRxFcTimer`**, for all states, whatever the parameter `rx_flowcontrol_timeout` (an `int`,
+    milliseconds): relative to the float conversion described above. -/
+theorem p_start_rx_fc_timer_agrees (s : State) (ms : Int) (env : Env) (hE : Has env (txAttrs s))
+    (hp : env "self.params.rx_flowcontrol_timeout" = some (pint ms)) :
+    ∃ env', runFn (txMeths s) env Src.TransportLayerLogic_p_start_rx_fc_timer = .ok (pnone, env') ∧
+      Has env' (txAttrs s.startRxFcTimer) ∧ ∀ k, k ∉ fcTimerKeys → env' k = env k := by
+  refine ⟨fcStartEnv s env, p_start_rx_fc_timer_run s ms env hp, ?_, ?_⟩
+  · obtain ⟨h1, h2, h3, h4, h5, h6, h7, h8, h9, h10, h11, h12, h13⟩ := has_txAttrs hE
+    simp [Has, txAttrs, fcStartEnv, State.startRxFcTimer, set_get, optPV, *]
+  · intro k hk
+    simp only [fcTimerKeys, List.mem_cons, List.not_mem_nil, or_false, not_or] at hk
+    simp [fcStartEnv, set_get, hk]
 
 end Isotp.PyAgree
